@@ -10,7 +10,7 @@ CLAIMED = {
             "numpy's byte reinterpretation and fsspec I/O are contracts (tested); model tied by differential testing", "7 C01"),
     "C02": ("Lean theorems reader_getitem_eq_np (the array the reader builds from an image file: every basic selection equals NumPy indexing of the file's own samples) and getitem_eq_np: model of Array.__getitem__ = NumPy basic indexing of the loaded image for every image, rpc and basic key; BASIC support re-read from source; correspondence over the full slice cube; isel/vectorised oracle vs in-memory twin",
             "xarray's indexer decomposition is third-party (tested end-to-end; two xarray-internal failures are recorded as known findings)", "7 C02"),
-    "C06": ("Lean theorems product_rpc_independent (whole-product model: root attributes, summary, /metadata and the set and order of image groups do not depend on the chunk size) / image_rpc_independent (layout-based reader: two successful opens of a well-framed image with any two chunk sizes return the same header, line records, image group and array metadata up to the chunk size) / record_window (translation invariance of the layout interpreter on the line-record layouts) / metadata_rpc_independent / data_rpc_independent / preferred_chunksize; pairwise bit-exact tree comparison oracle",
+    "C06": ("Lean theorems reader_data_rpc_independent (one image file opened by the layout-based reader with two chunk sizes: every basic selection on the two lazy arrays agrees) / product_rpc_independent (whole-product model: root attributes, summary, /metadata and the set and order of image groups do not depend on the chunk size) / image_rpc_independent (layout-based reader: two successful opens of a well-framed image with any two chunk sizes return the same header, line records, image group and array metadata up to the chunk size) / record_window (translation invariance of the layout interpreter on the line-record layouts) / metadata_rpc_independent / data_rpc_independent / preferred_chunksize; pairwise bit-exact tree comparison oracle",
             "float division in math.ceil exact below 2**53", "7 C06"),
     "C11": ("Lean theorems reader_read_bounds (the request for each group of the array the reader builds from an image file spans exactly that group's lines, inside the file) and theorems on the I/O trace component of the model (one seek+read per touched chunk, confined to the chunk and the file; open pass = prefix of ceil(n/rpc) sequential reads); event-sequence correspondence against a tracing file object; instrumented-filesystem oracle",
             "xarray may widen selections before the backend is called; bound checked against the selection's line span", "7 C11"),
